@@ -1013,7 +1013,7 @@ func genC14(tier string, seed uint64, n int, e *Emitter) {
 		}
 	}
 	if n == 0 {
-		n = 700
+		n = 520
 		if tier == "thorough" {
 			n = 30000
 		}
